@@ -227,6 +227,11 @@ Proof. enumerate. Qed.
 Theorem no_arg_write_CIF_with_beamline : no_arg_write F_cif_CIF_with_beamline.
 Proof. enumerate. Qed.
 
+Theorem no_arg_write_CIF_with_reduced_powder_data : no_arg_write F_cif_CIF_with_reduced_powder_data.
+Proof. enumerate. Qed.
+Theorem no_arg_write_CIF_with_powder_calibration : no_arg_write F_cif_CIF_with_powder_calibration.
+Proof. enumerate. Qed.
+
 (* the two documented in-place effects are real (the exemption is not vacuous): some configuration writes
    the exempted parameter *)
 Example drop_due_to_gravity_consumes_distance : writes_allowed PROG LOOPSITES F_beamline__drop_due_to_gravity = true.
@@ -334,7 +339,9 @@ Definition ANALYSED : list fundef := [F_utils_as_float_type;
   F_cif_Block_copy;
   F_cif_CIF_with_reducers;
   F_cif_CIF_with_authors;
-  F_cif_CIF_with_beamline].
+  F_cif_CIF_with_beamline;
+  F_cif_CIF_with_reduced_powder_data;
+  F_cif_CIF_with_powder_calibration].
 Theorem all_analysed_no_arg_write : Forall no_arg_write ANALYSED.
 Proof.
   exact (Forall_cons _ no_arg_write_as_float_type
@@ -432,5 +439,12 @@ Proof.
   (Forall_cons _ no_arg_write_CIF_with_reducers
   (Forall_cons _ no_arg_write_CIF_with_authors
   (Forall_cons _ no_arg_write_CIF_with_beamline
-  (Forall_nil _)))))))))))))))))))))))))))))))))))))))))))))))))))))))))))))))))))))))))))))))))))))))))))))))).
+  (Forall_cons _ no_arg_write_CIF_with_reduced_powder_data
+  (Forall_cons _ no_arg_write_CIF_with_powder_calibration
+  (Forall_nil _)))))))))))))))))))))))))))))))))))))))))))))))))))))))))))))))))))))))))))))))))))))))))))))))))).
 Qed.
+
+(* LAST (expected to break on a tree where CIF.save consumes the builder's id generator): assembling the author
+   chunks of a CIF builder must not modify the builder *)
+Theorem no_arg_write_CIF__assemble_authors : no_arg_write F_cif_CIF__assemble_authors.
+Proof. enumerate. Qed.
